@@ -341,11 +341,24 @@ struct client {
 static struct client g_cl[MAXCL];
 
 /* ---- pump ------------------------------------------------------------------------------------------- */
+/* The explorer files crashes under "signal + API call in progress"; the request sent last is made part of that
+   label so that two different crashes do not hide behind one another within one exploration. */
+static char g_last_item;
+
+static const char *api_label(const char *base)
+{
+    static __thread char lb[40];
+    if (!g_last_item)
+        return base;
+    snprintf(lb, sizeof lb, "%s[%c]", base, g_last_item);
+    return lb;
+}
+
 static void pump(struct xcm_socket *s)
 {
     unsigned saved = env_cfg()->io_menu;
     env_cfg()->io_menu = saved & (ENV_IO_SEQPKT | ENV_IO_ACCEPT);
-    mc_api_begin("pump", 1);
+    mc_api_begin(api_label("pump"), 1);
     for (int i = 0; i < g_pumpn; i++)
         xcm_finish(s);
     mc_api_end();
@@ -446,7 +459,7 @@ static int app_send(struct side *x, int m, int len)
         mc_sched_point("send");
         x->inflight = m;
         x->inflight_len = len;
-        int rc = API("xcm_send", 1, xcm_send(x->s, buf, len));
+        int rc = API(api_label("xcm_send"), 1, xcm_send(x->s, buf, len));
         int err = rc < 0 ? errno : 0;
         x->inflight = -1;
         mc_observe("%s send m%d len=%d -> %d %s", x->name, m, len, rc, rc < 0 ? errname(err) : "");
@@ -473,7 +486,7 @@ static int app_recv(struct side *x)
     unsigned char *buf = g_buf[x->idx];
     for (;;) {
         mc_sched_point("recv");
-        int rc = API("xcm_receive", 1, xcm_receive(x->s, buf, MAXMSG));
+        int rc = API(api_label("xcm_receive"), 1, xcm_receive(x->s, buf, MAXMSG));
         int err = rc < 0 ? errno : 0;
         mc_observe("%s recv -> %d %s", x->name, rc, rc < 0 ? errname(err) : "");
         if (rc > 0) {
@@ -506,7 +519,7 @@ static int app_finish(struct side *x)
 {
     for (;;) {
         mc_sched_point("finish");
-        int rc = API("xcm_finish", 1, xcm_finish(x->s));
+        int rc = API(api_label("xcm_finish"), 1, xcm_finish(x->s));
         int err = rc < 0 ? errno : 0;
         mc_observe("%s finish -> %d %s", x->name, rc, rc < 0 ? errname(err) : "");
         if (rc == 0) {
@@ -587,7 +600,7 @@ static void close_side(struct side *x)
     mc_sched_point("close");
     if (g_tsock == x->s)
         g_tclosed = 1;
-    API("xcm_close", 1, xcm_close(x->s));
+    API(api_label("xcm_close"), 1, xcm_close(x->s));
     mc_observe("%s close", x->name);
     x->s = NULL;
     x->closed = 1;
@@ -706,7 +719,7 @@ static void task_b(void *arg)
     mc_sched_point("close-server");
     if (g_tsock == g_server)
         g_tclosed = 1;
-    API("xcm_close", 1, xcm_close(g_server));
+    API(api_label("xcm_close"), 1, xcm_close(g_server));
     mc_observe("B closed the server socket");
     g_server = NULL;
     g_srv_closed = 1;
@@ -1046,6 +1059,7 @@ static void raw_client(struct client *c)
         o->healthy = c->poisoned == 0;
         snprintf(o->name, sizeof o->name, "%s", item_attr(it));
         c->pumps_at_send = g_pumps;
+        g_last_item = it;
         int rc = (int)send(c->fd, c->buf, n, MSG_NOSIGNAL | MSG_DONTWAIT);
         mc_observe("%s item '%c' send(%d) -> %d %s", c->name, it, n, rc, rc < 0 ? errname(errno) : "");
         mc_count(4, 1);
@@ -1144,6 +1158,7 @@ static void xcmc_client(struct client *c)
         snprintf(o.name, sizeof o.name, "%s", item_attr(it));
         c->waiting = it;
         c->waiting_owed = 1;
+        g_last_item = it;
         mc_count(4, 1);
         if (item_is_getall(it)) {
             struct xc_all x = { .c = c, .cfm = &m->get_all_attr_cfm };
